@@ -8,6 +8,7 @@
 -/
 import SeedProofs.Lemmas.C12Map
 import SeedProofs.Lemmas.C12Heap
+import SeedProofs.Lemmas.C12Lit
 namespace Seed.C12
 open Seed Gen
 
@@ -125,6 +126,46 @@ theorem literal_name_must_be_string {n : Nat} {σ σ1 : State} {sc : List Addr} 
 
 example : evalExpr 1 σex [0] (.mk (.Var c!"x") (5, 1)) = .ok (SVal.plain (.int 7)) σex ∧
     ∀ bs, (SVal.plain (.int 7)).v ≠ .str bs := ⟨by with_unfolding_all rfl, fun _ h => by cases h⟩
+
+
+/-- a whole literal `{n₁: v₁, …}` whose names and values evaluate without side effects: the entries are folded left
+    to right with later-wins insertion into the empty map, and the result is a fresh object -/
+theorem literal_spec {k : Nat} {σ : State} {sc : List Addr} {props : List PropItem} {pairs : List (List Char × SVal)}
+    (h : PureProps k σ sc props pairs) (loc : Loc) (d : Nat) :
+    evalExpr (k + props.length + 2 + d) σ sc (.mk (.Object props) loc) =
+      .ok (SVal.plain (.obj σ.heap.size)) (σ.alloc (.obj (insertAll [] pairs))).2 := by
+  have e1 : k + props.length + 2 + d = (k + props.length + 1 + d) + 1 := by omega
+  rw [e1, evalExpr, evalProps_pure h]
+  rfl
+
+example : PureProps 3 σex [0]
+    [.Pair (.mk (.Str c!"b" none) (1, 1)) (.mk (.Int 2) (1, 6)), .Pair (.mk (.Var c!"k") (1, 9)) (.mk (.Var c!"x") (1, 12))]
+    [(c!"b", SVal.plain (.int 2)), (c!"a", SVal.plain (.int 7))] := by
+  refine ⟨?_, ?_, ?_, ?_, trivial⟩
+  · intro m hm; obtain ⟨j, rfl⟩ : ∃ j, m = j + 3 := ⟨m - 3, by omega⟩
+    rw [evalToStr, evalExpr]; rfl
+  · intro m hm; obtain ⟨j, rfl⟩ : ∃ j, m = j + 3 := ⟨m - 3, by omega⟩
+    rw [evalExpr]
+  · intro m hm; obtain ⟨j, rfl⟩ : ∃ j, m = j + 3 := ⟨m - 3, by omega⟩
+    rw [evalToStr, evalExpr]; rfl
+  · intro m hm; obtain ⟨j, rfl⟩ : ∃ j, m = j + 3 := ⟨m - 3, by omega⟩
+    rw [evalExpr]; rfl
+
+/-- writing the same entries (distinct keys) in another order gives an object with the same contents -/
+theorem literal_order_independent {k : Nat} {σ : State} {sc : List Addr} {props props' : List PropItem}
+    {pairs pairs' : List (List Char × SVal)}
+    (h : PureProps k σ sc props pairs) (h' : PureProps k σ sc props' pairs')
+    (p : pairs.Perm pairs') (hd : DistinctKeys pairs) (loc loc' : Loc) (d : Nat) :
+    evalExpr (k + props.length + 2 + d) σ sc (.mk (.Object props) loc) =
+    evalExpr (k + props'.length + 2 + d) σ sc (.mk (.Object props') loc') := by
+  rw [literal_spec h, literal_spec h', insertAll_perm p hd Sorted.nil]
+
+/-- names made of ASCII characters — every identifier, so every `.k` and every shorthand `{k}` — satisfy the
+    round-trip hypothesis of the theorems above and below -/
+theorem ascii_name_roundtrip {name : List Char} (h : IsAscii name) : utf8Decode (utf8Encode name) = .ok name :=
+  utf8_roundtrip_ascii h
+
+example : IsAscii c!"a_B9" := by intro c hc; simp at hc; rcases hc with h | h | h | h <;> subst h <;> decide
 
 /-- `{a}` means `{"a": a}` -/
 theorem literal_shorthand (n : Nat) (σ : State) (sc : List Addr) (l la lb : Loc) (a : List Char) (r : List PropItem)
